@@ -79,6 +79,15 @@ impl<R: DebugBufRead> SymEncryptedProtectedDataReader<R> {
                     }
                 };
 
+                // Some ciphers (e.g. CAST5) accept keys of several lengths and pad them.
+                // A session key of the wrong length must never be used.
+                ensure_eq!(
+                    session_key.len(),
+                    sym_alg.key_size(),
+                    "Unexpected session key length for {:?}",
+                    sym_alg
+                );
+
                 replace_with::replace_with_and_return(
                     &mut self.source,
                     || Source::Error,
